@@ -3,4 +3,4 @@
 HERE="$(cd "$(dirname "${BASH_SOURCE[0]}")" && pwd)"
 export GOFLAGS=-mod=vendor GOPROXY=off GOSUMDB=off GOTOOLCHAIN=local
 (cd $HERE/checker && go build -o $HERE/bin/gfcheck . ) || exit 1
-for x in "$@"; do echo "=== $x"; $HERE/matrix.sh -v $HERE/refactorings/${x/\//-}/patch.diff 2>&1 | grep -E "ALARMS|VIOLATED|UNDECIDED|FATAL" -A1 | grep -v "^--" | cut -c1-420; done
+for x in "$@"; do echo "=== $x"; $HERE/matrix.sh -v $HERE/${REFDIR:-refactorings}/${x/\//-}/patch.diff 2>&1 | grep -E "ALARMS|VIOLATED|UNDECIDED|FATAL" -A1 | grep -v "^--" | cut -c1-420; done
